@@ -20,6 +20,31 @@ fn run<const M: u32>(t: &[&str]) -> String {
             let mut reader = Reader::new(Box::new(text.as_bytes()));
             reader.read::<Modular<M>>()
         }
+        "readfar" => {
+            // the same token, but starting d bytes before the 64 KiB boundary of what the Reader has fetched so
+            // far: padding of earlier values ("7 " tokens, all read as Modular too) or of blanks (odd d)
+            let d: usize = p(t[3]);
+            let pad = 65536usize.saturating_sub(d);
+            let mut text = String::with_capacity(pad + 40);
+            let mut earlier = 0usize;
+            if d % 2 == 0 {
+                while text.len() + 2 <= pad {
+                    text.push_str("7 ");
+                    earlier += 1;
+                }
+            }
+            while text.len() < pad {
+                text.push(' ');
+            }
+            text.push_str(t[2]);
+            text.push('\n');
+            let mut reader = Reader::new(Box::new(std::io::Cursor::new(text.into_bytes())));
+            for _ in 0..earlier {
+                let x: Modular<M> = reader.read();
+                assert!(x == Modular::<M>::new(7));
+            }
+            reader.read::<Modular<M>>()
+        }
         "neg" => -m(t[2]),
         "inv" => m(t[2]).inv(),
         "pow" => m(t[2]).pow(p::<u64>(t[3])),
